@@ -280,6 +280,10 @@ func (f *frame) specCall(fn *ssa.Function, args []*Val) (*Val, error) {
 	// proof: it may only be used where the current heap still is the entry heap for what it reads
 	for k := range sym.Reads {
 		if cur, ok := f.st.m[k]; ok && cur.String() != Const("init!"+k, cur.Sort).String() {
+			if !sym.Recursive && !sym.Uninterpreted && f.depth < 12 && len(fn.Blocks) > 0 {
+				// a non-recursive heap-reading spec function is evaluated in place over the CURRENT heap
+				return f.inlineCall(fn, nil, args)
+			}
 			return nil, unsupported("spec function %s reads heap location %s, which has been modified at this point (heap-reading spec functions are evaluated over the entry heap) [now %s]", fn.Name(), k, truncate(cur.String(), 120))
 		}
 	}
@@ -1411,8 +1415,32 @@ func (f *frame) invoke(cc *ssa.CallCommon, res ssa.Value, pos token.Pos) (*Val, 
 			asorts = append(asorts, a.T.Sort)
 		}
 		sig := cc.Signature()
+		if sig.Results().Len() > 1 {
+			// several results: one deterministic symbol per result
+			var rts []*Term
+			for i := 0; i < sig.Results().Len(); i++ {
+				rsi, err := f.e.Sorts.SortOf(sig.Results().At(i).Type())
+				if err != nil {
+					return nil, err
+				}
+				nm := fmt.Sprintf("invoke.%s!%d", sanitize(cc.Method.FullName()), i)
+				f.e.Defs.noteFunc(nm, asorts, rsi)
+				ri := App(nm, rsi, ts...)
+				if f.c != nil {
+					f.assume(f.e.rangeFact(ri, sig.Results().At(i).Type()))
+				}
+				rts = append(rts, ri)
+			}
+			if f.c != nil {
+				if f.c.assumed == nil {
+					f.c.assumed = map[string]bool{}
+				}
+				f.c.assumed["interface method "+cc.Method.FullName()+" is a pure observer"] = true
+			}
+			return resultVal(sig, rts), nil
+		}
 		if sig.Results().Len() != 1 {
-			return nil, unsupported("pure method %s must have exactly one result", cc.Method.Name())
+			return nil, unsupported("pure method %s must have a result", cc.Method.Name())
 		}
 		rs, err := f.e.Sorts.SortOf(sig.Results().At(0).Type())
 		if err != nil {
